@@ -147,17 +147,17 @@ Fixpoint yty_of_sx (fuel : nat) (a : sx) : option yty :=
           else if String.eqb k "ostruct" then option_map YOpenStruct (tys rest)
           else if String.eqb k "peek" then
             match rest with
-            | [SN off; x; y] =>
+            | [SN off; SN len; SN val; x; y] =>
                 match yty_of_sx f x, yty_of_sx f y with
-                | Some t0, Some t1 => Some (YPeek (N.to_nat off) t0 t1) | _, _ => None end
+                | Some t0, Some t1 => Some (YPeek (N.to_nat off) (N.to_nat len) val t0 t1) | _, _ => None end
             | _ => None
             end
-          else if String.eqb k "sum" then option_map YSum (alts rest)
           else if String.eqb k "hm" then
             match rest with
             | [SN n; SN vsz; x] => option_map (YHashmap (N.to_nat n) vsz) (yty_of_sx f x)
             | _ => None
             end
+          else if String.eqb k "sum" then option_map YSum (alts rest)
           else if String.eqb k "bintree" then
             match rest with
             | [SN vsz; x] => option_map (YBinTree vsz) (yty_of_sx f x)
@@ -178,6 +178,7 @@ Fixpoint yty_of_sx (fuel : nat) (a : sx) : option yty :=
                        else if String.eqb k "ref" then Some (YRef t) else if String.eqb k "mref" then Some (YMaybeRef t)
                        else if String.eqb k "hashed" then Some (YHashed t) else if String.eqb k "refraw" then Some (YRefRaw t)
                        else if String.eqb k "nolib" then Some (YNoLib t)
+                       else if String.eqb k "refrawopt" then Some (YRefRawOpt t)
                        else None
                    | None => None
                    end
@@ -249,9 +250,9 @@ Definition resolver_of (pairs : list sx) : xtree -> option xtree :=
 (* c08.tlb: (cmp_rest desc tree [hash-failure paths [resolver pairs]]) -> ('ok bits refs) | 'ok | 'err | 'panic | 'fuel *)
 Definition run_tlb (a : sx) : sx :=
   let go (cmp : bool) (d tr : sx) (paths : list sx) (rs : xtree -> option xtree) : sx :=
-      match yty_of_sx 64 d, xtree_of_sx 3000 tr with
+      match yty_of_sx 400 d, xtree_of_sx 3000 tr with
       | Some t, Some c =>
-          match fst (yunmarshal [] (hash_oracle c paths) rs 64 t c) with
+          match fst (yunmarshal [] (hash_oracle c paths) rs 400 t c) with
           | Ok s => if cmp then SL [SA "ok"; sx_nat (List.length (yb s)); sx_nat (List.length (yr s))] else SA "ok"
           | Err e => if N.eqb e EFuel then SA "fuel" else SA "err"
           | Panic _ => SA "panic"
@@ -285,8 +286,8 @@ Definition run_mapint (a : sx) : sx :=
 Definition run_tlbcost (a : sx) : sx :=
   match a with
   | SL [SB _; d; tr] =>
-      match yty_of_sx 64 d, xtree_of_sx 3000 tr with
-      | Some t, Some c => let st := snd (yunmarshal [] (fun _ => true) no_resolver 64 t c) in SL [SN (c_steps st); SN (c_alloc st)]
+      match yty_of_sx 400 d, xtree_of_sx 3000 tr with
+      | Some t, Some c => let st := snd (yunmarshal [] (fun _ => true) no_resolver 400 t c) in SL [SN (c_steps st); SN (c_alloc st)]
       | _, _ => sx_err "tlb-shape"
       end
   | _ => sx_err "tlbcost"
@@ -400,6 +401,19 @@ Definition run_accproof (a : sx) : sx :=
   | _ => sx_err "accproof"
   end.
 
+(* c08.reqdec: bytes -> 'short | 'unknown | ('req TypeName) | 'panic *)
+Definition run_reqdec (a : sx) : sx :=
+  match a with
+  | SBytes b =>
+      match request_decode tl_bindings tl_request_table h08_fuel b with
+      | Ok (Some ty) => SL [SA "req"; SA ty]
+      | Ok None => SA "unknown"
+      | Err _ => SA "short"
+      | Panic _ => SA "panic"
+      end
+  | _ => sx_err "reqdec"
+  end.
+
 Definition run (name : string) (a : sx) : sx :=
   let is x := String.eqb name x in
   if is "c08.tl" then run_tl a
@@ -411,6 +425,7 @@ Definition run (name : string) (a : sx) : sx :=
   else if is "c08.answer" then run_answer a
   else if is "c08.answer2" then run_answer2 a
   else if is "c08.reader" then run_reader a
+  else if is "c08.reqdec" then run_reqdec a
   else if is "c08.nonce" then run_nonce a
   else if is "c08.packet" then run_packet a
   else if is "c08.vmstack" then run_vmstack a
